@@ -612,6 +612,19 @@ func vfExerciseExpected(rep *verifkit.Report, tc *conformancev1.TestCase, desc s
 		if big {
 			continue
 		}
+		if p.RequestInfo == nil {
+			// nothing is expected to be echoed in this response: echoed requests / an echoed timeout are deviations
+			surplus, _ := anypb.New(&conformancev1.UnaryRequest{RequestData: []byte("not expected here")})
+			a = vfCloneRes(E)
+			a.Payloads[i].RequestInfo = &conformancev1.ConformancePayload_RequestInfo{Requests: []*anypb.Any{surplus}}
+			c.mustFail("echoed-request-where-none-expected", a, "request")
+			if i == 0 {
+				// (headers, timeout and query parameters are compared on the first response only - that is where peers echo them)
+				a = vfCloneRes(E)
+				a.Payloads[i].RequestInfo = &conformancev1.ConformancePayload_RequestInfo{TimeoutMs: proto.Int64(1234)}
+				c.mustFail("echoed-timeout-where-none-expected", a, "timeout")
+			}
+		}
 		a = vfCloneRes(E)
 		a.Payloads[i].Data = append(append([]byte{}, p.Data...), 0)
 		c.mustFail("payload-byte-appended", a, fmt.Sprintf("response #%d", i+1))
@@ -720,6 +733,27 @@ func vfExerciseExpected(rep *verifkit.Report, tc *conformancev1.TestCase, desc s
 					nh[hi].Value = append(append([]string{}, nh[hi].Value[:vi]...), nh[hi].Value[vi+1:]...)
 					hl.set(a, nh)
 					c.mustFail(kind+"-value-dropped", a, lname)
+				}
+			}
+			if len(h.Value) > 1 {
+				// white space at the edge of a separate value is part of that value (only around commas inside one value is it optional)
+				for vi := range h.Value {
+					for _, edge := range []string{"lead", "trail"} {
+						if (edge == "lead" && vi == 0) || (edge == "trail" && vi == len(h.Value)-1) {
+							continue // (HTTP itself strips white space at the outer edges of a field line)
+						}
+						a = vfCloneRes(E)
+						nh := vfCloneHeaders(hs)
+						if edge == "lead" {
+							nh[hi].Value[vi] = " " + nh[hi].Value[vi]
+						} else {
+							nh[hi].Value[vi] = nh[hi].Value[vi] + " "
+						}
+						if !reflect.DeepEqual(vfCanon(nh[hi].Value), vfCanon(h.Value)) {
+							hl.set(a, nh)
+							c.mustFail(kind+"-value-edge-space-"+edge, a, lname)
+						}
+					}
 				}
 			}
 			a = vfCloneRes(E)
